@@ -109,9 +109,26 @@ func (c *Calcium) RemoveNode(ctx context.Context, nodename string) error {
 				metrics.Client.RemoveInvalidNodes(nodename)
 				return nil
 			},
-			// rollback: do nothing
-			func(_ context.Context, _ bool) error {
-				return nil
+			// rollback: the node metadata is gone but its resource metadata could not be
+			// removed: put the node metadata back so that the node stays as it was
+			func(ctx context.Context, failedByCond bool) error {
+				if failedByCond {
+					return nil
+				}
+				if _, err := c.store.AddNode(ctx, &types.AddNodeOptions{
+					Nodename: node.Name,
+					Endpoint: node.Endpoint,
+					Podname:  node.Podname,
+					Ca:       node.Ca,
+					Cert:     node.Cert,
+					Key:      node.Key,
+					Labels:   node.Labels,
+					Test:     node.Test,
+				}); err != nil {
+					return err
+				}
+				// AddNode starts from a fresh record: restore flags such as bypass
+				return c.store.UpdateNodes(ctx, node)
 			},
 			c.config.GlobalTimeout)
 	})
